@@ -402,7 +402,15 @@ pub fn normal_form(ops: &[Op], new: &[u32]) -> Result<(), Fail> {
                 );
             }
             if let (Op::Insert(_, n, _), Op::Equal(_, en, _)) = (*op, next) {
-                if new[n] == new[en] {
+                // (the list need not be a valid script here: C09 judges the
+                // form only, so indices can point anywhere)
+                let (Some(a), Some(b)) = (new.get(n), new.get(en)) else {
+                    return fail(
+                        "nf.index_in_range",
+                        format!("op {} {:?} / {:?}: index outside the new sequence of {} items", idx, op, next, new.len()),
+                    );
+                };
+                if a == b {
                     return fail(
                         "nf.insert_latest",
                         format!(
